@@ -857,9 +857,13 @@ class Harness:
                     t = getattr(q, "consumer", None)
                     if t is not None and t.ident is not None and not t.is_alive():
                         continue
+                    if t is not None and t in self.blocked_ok:
+                        continue      # its consumer is held on purpose by the scenario: what waits for it is not pending work
                     return False
             for ident, th in list(self.busy.items()):
                 if th.is_alive():
+                    if th in self.blocked_ok:
+                        continue
                     return False
                 del self.busy[ident]
             for th in self.request_threads:
